@@ -112,7 +112,8 @@ func init() {
  package switch const fallthrough if range type continue for import return var any bool byte comparable
  complex64 complex128 error float32 float64 int int8 int16 int32 int64 rune string uint uint8 uint16 uint32
  uint64 uintptr true false iota nil append cap clear close complex copy delete imag len make max min new
- panic print println real recover json yaml fmt slices strings strconv genum dumplib aux tm`) {
+ panic print println real recover json yaml fmt slices strings strconv genum dumplib aux tm
+ e ok v s text input err data value uinter64 sint64 floater64 floater32 v0 v1 v2 v3 v4`) {
 		reserved[w] = true
 	}
 }
@@ -273,17 +274,22 @@ func pickValues(r *rand.Rand, u under, m int) (run []*big.Int, step int64, extra
 		case 8, 9:
 			v = bigOf(int64(r.IntN(60)))
 		default:
-			span := new(big.Int).Sub(tyMax(u), tyMin(u))
-			v = new(big.Int).Add(tyMin(u), new(big.Int).Rand(rand64{r}, new(big.Int).Add(span, bigOf(1))))
+			v = randInRange(r, u)
 		}
 		add(&extras, v)
 	}
 	return run, step, extras
 }
 
-type rand64 struct{ r *rand.Rand }
+// randInRange draws a value of the type (uniform up to a negligible modulo bias).
+func randInRange(r *rand.Rand, u under) *big.Int {
+	x := new(big.Int).SetUint64(r.Uint64())
+	if u.bits < 64 {
+		x.Mod(x, new(big.Int).Lsh(bigOf(1), uint(u.bits)))
+	}
+	return x.Add(x, tyMin(u))
+}
 
-// Int63 / Uint64 / Seed make *rand.Rand (v2) usable as a math/rand (v1) Source for big.Int.Rand.
 func abs64(x int64) int64 {
 	if x < 0 {
 		return -x
@@ -318,10 +324,6 @@ func genEnum(r *rand.Rand, nm *namer, typeName string, nextBlock *int) EnumDef {
 	shape := map[string]bool{}
 
 	// --- the iota run: its own block (or the head of a block shared with the extras)
-	type line struct {
-		c    Const
-		skip bool
-	}
 	var blocks [][]Const
 	if len(run) > 0 {
 		var blk []Const
